@@ -42,13 +42,15 @@ def cal_scenario(rng, slot_c, slot_n, create):
 def prop_lines(rng, c, ci):
     out = []
     for _ in range(rng.randint(0, 4)):
-        d = rng.choice([b'note=hello world', b'a.b.c=1', b'list[2]=x', b'list[0]=y', b'k\\ ey=v', b'm.n#', b'text=line1\nline2', b'num=3.14', b'e=', b'u=\xe2\x82\xac', b'q.r[+]=z'])
+        d = rng.choice([b'note=hello world', b'a.b.c=1', b'list[2]=x', b'list[0]=y', b'k\\ ey=v', b'm.n#', b'text=line1\nline2', b'num=3.14', b'e=', b'u=\xe2\x82\xac', b'q.r[+]=z',
+                        # keys that contain characters of the descriptor syntax (escaped here; they are ordinary keys of the tree)
+                        b'port\\.one=v1', b'rev\\[2\\]=v2', b'a\\=b=v3', b'\\50ohm=v4', b'h\\#1=v5', b'p\\{q\\}=v6', b'bs\\\\=v7', b'nest.port\\.1=v8'])
         out.append('cal property %d %d set %s' % (c, ci, h(d)))
     return out
 
 
 def prop_digest_lines(c, ci):
-    return ['cal property %d %d keys %s' % (c, ci, h('.')), 'cal property %d %d type %s' % (c, ci, h('.'))]
+    return ['cal property %d %d keys %s' % (c, ci, h('.')), 'cal property %d %d type %s' % (c, ci, h('.')), 'cal property %d %d digest %s' % (c, ci, h('.'))]
 
 
 def rounds_to(a, full, p):
